@@ -42,6 +42,17 @@ type typeCfg struct {
 	mapKeys    []string // allowed map key kinds
 	mergeable  bool     // only types for which JSON-level merge is defined (C14)
 	plainNames bool
+	formats    bool // `format:` tag options (needs ExperimentalSupportFormatTag)
+}
+
+var formatsFor = map[string][]string{
+	"time":     {"RFC3339", "RFC3339Nano", "RFC822", "RFC850", "RFC1123", "UnixDate", "unix", "unixmilli", "unixmicro", "unixnano", "DateTime", "'2006-01-02T15:04:05 MST'"},
+	"duration": {"units", "sec", "milli", "micro", "nano", "iso8601"},
+	"bytes":    {"base64", "base64url", "base32", "base32hex", "base16", "hex", "array"},
+	"float64":  {"nonfinite"},
+	"float32":  {"nonfinite"},
+	"slice":    {"emitnull", "emitempty"},
+	"map":      {"emitnull", "emitempty"},
 }
 
 var scalarKinds = []string{"bool", "int8", "int16", "int32", "int64", "int", "uint8", "uint16", "uint32", "uint64", "uint", "string", "float64", "float32", "bytes"}
@@ -81,7 +92,7 @@ func genTypeDesc(r *rand.Rand, c *typeCfg, depth int) *tdesc {
 		if len(keys) == 0 {
 			keys = []string{"string"}
 		}
-		return &tdesc{K: "map", Key: &tdesc{K: keys[r.IntN(len(keys))]}, Elem: genTypeDesc(r, c, depth+1)}
+		return &tdesc{K: "map", Key: keyDesc(keys[r.IntN(len(keys))]), Elem: genTypeDesc(r, c, depth+1)}
 	case 5:
 		return &tdesc{K: "ptr", Elem: genTypeDesc(r, c, depth+1)}
 	default:
@@ -112,6 +123,11 @@ func genTypeDesc(r *rand.Rand, c *typeCfg, depth int) *tdesc {
 					opts = append(opts, "string")
 				}
 			}
+			if c.formats {
+				if fs, ok := formatsFor[f.T.K]; ok && (r.IntN(2) == 0 || f.T.K == "duration") {
+					opts = append(opts, "format:"+fs[r.IntN(len(fs))])
+				}
+			}
 			if used[name] {
 				name = name + strconv.Itoa(i)
 			}
@@ -127,6 +143,23 @@ func genTypeDesc(r *rand.Rand, c *typeCfg, depth int) *tdesc {
 		}
 		return t
 	}
+}
+
+// keyDesc expands the shorthand for composite (but comparable) map key types
+func keyDesc(k string) *tdesc {
+	switch k {
+	case "ptr:slice":
+		return &tdesc{K: "ptr", Elem: &tdesc{K: "slice", Elem: &tdesc{K: "int"}}}
+	case "ptr:string":
+		return &tdesc{K: "ptr", Elem: &tdesc{K: "string"}}
+	case "ptr:struct":
+		return &tdesc{K: "ptr", Elem: &tdesc{K: "struct", Fields: []fdesc{{Go: "A", T: &tdesc{K: "int"}}}}}
+	case "array:int":
+		return &tdesc{K: "array", N: 2, Elem: &tdesc{K: "int"}}
+	case "struct":
+		return &tdesc{K: "struct", Fields: []fdesc{{Go: "A", T: &tdesc{K: "int"}}}}
+	}
+	return &tdesc{K: k}
 }
 
 func isNumericKind(k string) bool {
@@ -222,6 +255,7 @@ func buildType(t *tdesc) reflect.Type {
 }
 
 type valCfg struct {
+	weirdZones  bool
 	invalidUTF8 bool
 	nonFinite   bool
 	nils        bool
@@ -237,8 +271,13 @@ func genGoValue(r *rand.Rand, vc *valCfg, t reflect.Type, depth int) reflect.Val
 		}
 		return v
 	case timeType:
-		secs := []int64{0, 1, -1, 951782400, 253402300799, -62135596800, math.MaxInt32, 1<<40 + 123}[r.IntN(8)]
-		v.Set(reflect.ValueOf(time.Unix(secs, int64(r.IntN(3))*int64(r.IntN(1e9))).UTC()))
+		secs := []int64{0, 1, -1, 951782400, 253402300799, -62135596800, math.MaxInt32, 1<<32 + 123}[r.IntN(8)]
+		tm := time.Unix(secs, int64(r.IntN(2))*int64(r.IntN(1e9))).UTC()
+		if vc.weirdZones && r.IntN(3) == 0 {
+			names := []string{"A\"B", "back\\slash", "nl\n", "\xff", "<Z>", "MST", ""}
+			tm = tm.In(time.FixedZone(names[r.IntN(len(names))], (r.IntN(27)-13)*3600+r.IntN(2)*1800))
+		}
+		v.Set(reflect.ValueOf(tm))
 		return v
 	case durationType:
 		ds := []int64{0, 1, -1, 999, 1e9, 3600e9, math.MaxInt64, math.MinInt64, 1500e6, -90061e9 - 7}
@@ -328,6 +367,12 @@ func genGoValue(r *rand.Rand, vc *valCfg, t reflect.Type, depth int) reflect.Val
 		v.Set(m)
 	case reflect.Pointer:
 		if vc.nils && r.IntN(3) == 0 {
+			return v
+		}
+		if t.Elem().Kind() == reflect.Slice && r.IntN(2) == 0 { // pointer to an empty (non-nil) slice
+			p := reflect.New(t.Elem())
+			p.Elem().Set(reflect.MakeSlice(t.Elem(), 0, 0))
+			v.Set(p)
 			return v
 		}
 		p := reflect.New(t.Elem())
